@@ -5,6 +5,7 @@ without human help or reported as a broken obligation.
 -/
 import GivaroModel.Prim.Gmp
 import GivaroModel.Spec.IntegerSpec
+import GivaroModel.Lemmas.GmpLemmas
 import Mathlib.Tactic.Ring
 namespace Givaro
 
@@ -38,6 +39,7 @@ macro_rules | `(tactic| gmp_leaf) => `(tactic| first
   | rfl
   | omega
   | (simp only [Res.mk.injEq, List.cons.injEq, and_true, true_and, and_self]; first | omega | (constructor <;> omega))
+  | (and_intros <;> first | rfl | omega | (simp_all; done))
   | (simp_all; done)
   | (subst_vars; simp only [Res.mk.injEq, List.cons.injEq, and_true, true_and, and_self]; ring_nf; done)
   | (simp only [Res.mk.injEq, List.cons.injEq, and_true, true_and, and_self]; ring_nf; done)
@@ -63,7 +65,18 @@ macro "wrap_id1" f:ident x:ident : tactic => `(tactic|
     simp only [hw] at *
     clear hw))
 
+/-- same for `std::abs` of a non-negative word -/
+macro "abs_id1" f:ident x:ident : tactic => `(tactic|
+  try (
+    have hw : $f $x = $x := by
+      simp only [$f:ident, wrapS64, wrapS32, InU8, InU16, InU32, InU64, InS8, InS16, InS32, InS64] at *
+      split <;> omega
+    simp only [hw] at *
+    clear hw))
+
 macro "wrap_id" x:ident : tactic => `(tactic| (
+  abs_id1 absS64 $x
+  abs_id1 absS32 $x
   wrap_id1 wrapU64 $x
   wrap_id1 wrapS64 $x
   wrap_id1 wrapU32 $x
@@ -71,15 +84,132 @@ macro "wrap_id" x:ident : tactic => `(tactic| (
 
 /-- forwards to a GMP primitive whose contract is the specification function itself -/
 macro "gmp_misc" : tactic => `(tactic| (
+  (try simp only [mpz_powm_spec _ _ _ (by assumption), mpz_powm_ui_spec _ _ _ (by assumption)] at *)
   try simp only [mpz_mul, mpz_mul_ui, mpz_mul_si, Spec.mul,
     mpz_and, mpz_ior, mpz_xor, Spec.land, Spec.lor, Spec.lxor, wland, wlor, wlxor,
     mpz_mul_2exp, mpz_tdiv_q_2exp, mpz_fdiv_q_2exp, Spec.shl, Spec.shr,
     mpz_gcd, mpz_lcm, Spec.gcd, Spec.lcm, mpz_pow_ui, mpz_ui_pow_ui, Spec.pow,
     mpz_sqrt, mpz_sqrtrem_d0, mpz_sqrtrem_d1, Spec.isqrt,
-    mpz_get_ui, mpz_get_si, mpz_sizeinbase, Spec.bitsize] at *
+    mpz_get_ui, mpz_get_si, mpz_sizeinbase, Spec.bitsize, (show Int.toNat 2 = 2 from rfl)] at *
   (try gmp_unfold); (try word_unfold); gmp_go))
 
-macro "gmp_div" : tactic => `(tactic| sorry)
-macro "gmp_cert" : tactic => `(tactic| sorry)
+/-! ### division: everything is normalised to `a / b`, `a % b` (non-negative remainder) -/
+theorem sign_ite (b : Int) : Int.sign b = if 0 < b then 1 else if b < 0 then -1 else 0 := by
+  rcases Int.lt_trichotomy b 0 with h | h | h
+  · simp [Int.sign_eq_neg_one_of_neg h]; omega
+  · subst h; simp
+  · simp [Int.sign_eq_one_of_pos h, h]
+
+theorem tdiv_ediv (a b : Int) :
+    a.tdiv b = a / b + (if 0 ≤ a ∨ a % b = 0 then 0 else if 0 < b then 1 else if b < 0 then -1 else 0) := by
+  rw [Int.tdiv_eq_ediv]; simp only [Int.dvd_iff_emod_eq_zero, sign_ite]
+theorem tmod_emod (a b : Int) :
+    a.tmod b = a % b - (if 0 ≤ a ∨ a % b = 0 then 0 else if b < 0 then -b else b) := by
+  rw [Int.tmod_eq_emod]; simp only [Int.dvd_iff_emod_eq_zero]
+  split <;> [rfl; (split <;> omega)]
+theorem fdiv_ediv (a b : Int) : a.fdiv b = a / b - (if 0 ≤ b ∨ a % b = 0 then 0 else 1) := by
+  rw [Int.fdiv_eq_ediv]; simp only [Int.dvd_iff_emod_eq_zero]
+theorem fmod_emod (a b : Int) : a.fmod b = a % b + (if 0 ≤ b ∨ a % b = 0 then 0 else b) := by
+  rw [Int.fmod_eq_emod]; simp only [Int.dvd_iff_emod_eq_zero]
+theorem neg_ediv' (a b : Int) :
+    (-a) / b = -(a / b) - (if a % b = 0 then 0 else if 0 < b then 1 else if b < 0 then -1 else 0) := by
+  rw [Int.neg_ediv]; simp only [Int.dvd_iff_emod_eq_zero, sign_ite]
+theorem neg_emod' (a b : Int) :
+    (-a) % b = if a % b = 0 then 0 else (if b < 0 then -b else b) - a % b := by
+  rw [Int.neg_emod]; simp only [Int.dvd_iff_emod_eq_zero]
+  split <;> [rfl; (split <;> omega)]
+theorem emod_bounds (a b : Int) (h : b ≠ 0) : 0 ≤ a % b ∧ a % b < (if b < 0 then -b else b) := by
+  have h1 := Int.emod_nonneg a h
+  have h2 := Int.emod_lt a h
+  constructor
+  · exact h1
+  · split <;> omega
+theorem dvd_emod (a b : Int) : b ∣ a ↔ a % b = 0 := Int.dvd_iff_emod_eq_zero
+
+/-- `std::abs` followed by the conversion to `unsigned long` is the mathematical absolute value,
+    also at the minimum of the signed type (two's complement) -/
+theorem wrapU64_absS64 (d : Int) (h : InS64 d) : wrapU64 (absS64 d) = (if d < 0 then -d else d) := by
+  unfold wrapU64 absS64 wrapS64 InS64 at *; split <;> omega
+theorem wrapU64_absS32 (d : Int) (h : InS32 d) (h2 : d ≠ -2147483648) : wrapU64 (absS32 d) = (if d < 0 then -d else d) := by
+  unfold wrapU64 absS32 wrapS32 InS32 at *; split <;> omega
+
+macro "div_norm" : tactic => `(tactic| (
+  try simp only [mpz_tdiv_q, mpz_tdiv_r, mpz_tdiv_qr_d0, mpz_tdiv_qr_d1, mpz_fdiv_q, mpz_fdiv_r, mpz_cdiv_q, mpz_cdiv_r,
+    mpz_tdiv_q_ui_d0, mpz_tdiv_q_ui_ret, mpz_tdiv_r_ui_d0, mpz_tdiv_r_ui_ret, mpz_tdiv_ui,
+    mpz_fdiv_q_ui_d0, mpz_fdiv_q_ui_ret, mpz_fdiv_r_ui_d0, mpz_fdiv_r_ui_ret, mpz_fdiv_ui,
+    mpz_cdiv_q_ui_d0, mpz_cdiv_q_ui_ret, mpz_cdiv_r_ui_d0, mpz_cdiv_r_ui_ret, mpz_cdiv_ui,
+    mpz_mod, mpz_mod_ui_d0, mpz_mod_ui_ret, mpz_divexact, mpz_divexact_ui,
+    Spec.tdivQ, Spec.tmodR, Spec.fdivQ, Spec.fmodR, Spec.cdivQ, Spec.cmodR, Spec.edivQ, Spec.emodR] at *))
+
+macro "ite_reduce" : tactic => `(tactic|
+  try simp only [*, ↓reduceIte, not_true_eq_false, not_false_eq_true, or_true, true_or, or_false, false_or,
+    and_true, true_and, and_false, false_and, Int.neg_neg, Int.ediv_neg, Int.emod_neg, Int.zero_sub, Int.sub_zero, Int.add_zero, Int.zero_add,
+    Int.neg_zero] at *)
+
+/-- division family with dividend `n` and divisor `d` (parameters of the overload) -/
+macro "gmp_div" n:ident d:ident : tactic => `(tactic| (
+  have hbnd := emod_bounds $n $d (by assumption)
+  div_norm
+  first | done | (
+  (try gmp_unfold)
+  (try simp only [tdiv_ediv, tmod_emod, fdiv_ediv, fmod_emod, dvd_emod] at *)
+  by_cases c1 : 0 ≤ $n <;> by_cases c2 : $n % $d = 0 <;> by_cases c3 : $d < 0 <;>
+    (try simp only [wrapU64_absS64 $d (by first | assumption | (simp only [InU8, InU16, InU32, InU64, InS8, InS16, InS32, InS64] at *; omega))] at hbnd ⊢) <;>
+    (try simp only [wrapU64_absS32 $d (by assumption) (by first | assumption | omega)] at hbnd ⊢) <;>
+    (try (have e1 : wrapU64 (wrapS64 (-$d)) = -$d := by
+            (simp only [wrapU64, wrapS64, InU8, InU16, InU32, InU64, InS8, InS16, InS32, InS64] at *; omega)
+          simp only [e1] at hbnd ⊢)) <;>
+    (try (have e2 : wrapU64 $d = $d := by
+            (simp only [wrapU64, wrapS64, InU8, InU16, InU32, InU64, InS8, InS16, InS32, InS64] at *; omega)
+          simp only [e2] at hbnd ⊢)) <;>
+    (try (have e3 : wrapU64 (-$d) = -$d := by
+            (simp only [wrapU64, wrapS64, InU8, InU16, InU32, InU64, InS8, InS16, InS32, InS64] at *; omega)
+          simp only [e3] at hbnd ⊢)) <;>
+    (try simp only [c1, c2, c3, ↓reduceIte, not_true_eq_false, not_false_eq_true, or_true, true_or, or_false, false_or,
+      Int.ediv_neg, Int.emod_neg, neg_ediv', neg_emod', Int.neg_neg] at hbnd ⊢) <;>
+    (try simp only [c1, c2, c3, ↓reduceIte, not_true_eq_false, not_false_eq_true, or_true, true_or, or_false, false_or] at hbnd ⊢) <;>
+    (try word_unfold) <;>
+    gmp_go)))
+
+/-! ### certificate-style statements `chk args (f args) = true` -/
+theorem gcdext_d0_lt0 (a b : Int) : (mpz_gcdext_d0 a b < 0) ↔ False := by
+  have := mpz_gcdext_d0_nonneg a b
+  constructor
+  · intro h; omega
+  · intro h; exact h.elim
+theorem gcd_lt0 (a b : Int) : (mpz_gcd a b < 0) ↔ False := by
+  have := mpz_gcd_nonneg a b
+  constructor
+  · intro h; omega
+  · intro h; exact h.elim
+theorem lcm_lt0 (a b : Int) : (mpz_lcm a b < 0) ↔ False := by
+  have := mpz_lcm_nonneg a b
+  constructor
+  · intro h; omega
+  · intro h; exact h.elim
+
+syntax "cert_leaf" : tactic
+macro_rules | `(tactic| cert_leaf) => `(tactic| (
+  simp only [decide_eq_true_eq, Spec.isBezout, List.getD_cons_zero, List.getD_cons_succ, List.length_cons, List.length_nil,
+    List.getD_eq_getElem?_getD, List.getElem?_cons_zero, List.getElem?_cons_succ, Option.getD_some]
+  and_intros <;> first
+    | rfl
+    | omega
+    | exact mpz_gcdext_bezout _ _
+    | (apply mpz_invert_spec <;> assumption)
+    | (simp only [mpz_neg]; linear_combination (-1 : Int) * mpz_gcdext_bezout _ _)
+    | ((try gmp_unfold); (try word_unfold); gmp_go)
+    | (simp_all; done)))
+
+syntax "cert_go" ident : tactic
+macro_rules | `(tactic| cert_go $c) => `(tactic| first | done | (split <;> cert_go $c) | (unfold $c; cert_leaf))
+
+macro "gmp_cert" c:ident : tactic => `(tactic| (
+  (try gmp_unfold)
+  (try simp only [gcdext_d0_lt0, gcd_lt0, lcm_lt0, ↓reduceIte, mpz_tstbit, mpz_get_ui, mpz_get_si,
+    Int.toNat_zero, Int.pow_zero, Int.ediv_one] at *)
+  first
+    | (cert_go $c)
+    | (unfold $c; simp only [decide_eq_true_eq]; (try gmp_unfold); (try word_unfold); gmp_go)))
 
 end Givaro
